@@ -110,6 +110,10 @@ def check_deleg(repo, res, fns):
                         # no mutation of `var` between
                         mutated = any(isinstance(n, ast.Subscript) and isinstance(n.ctx, (ast.Store, ast.Del)) and isinstance(n.value, ast.Name) and n.value.id == var for n in ast.walk(w.node)) or any(isinstance(c, ast.Call) and isinstance(c.func, ast.Attribute) and isinstance(c.func.value, ast.Name) and c.func.value.id == var and c.func.attr in ("pop", "update", "clear", "popitem", "setdefault") for c in ast.walk(w.node))
                         ok = not mutated
+        for d in calls_named(w, "dumps"):
+            # json.dumps(conv(H), ...) without a local in between
+            if d.args and isinstance(d.args[0], ast.Call) and getattr(d.args[0].func, "id", getattr(d.args[0].func, "attr", None)) == conv_w:
+                ok = True
         res.inst("F-DELEG", f"{wname} serialises exactly {conv_w}(H)", ok)
         if not ok:
             res.add(mk_finding(PROP, "F-DELEG", w, w.node, f"{wname} does not hand the unmodified result of {conv_w}(H) to json.dumps; keys added or dropped in between are invisible to the paired reader", role=conv_w))
@@ -490,23 +494,24 @@ def check_collections(repo, res, fns):
         for c in ast.walk(r.node):
             if isinstance(c, ast.Compare) and len(c.ops) == 1 and isinstance(c.ops[0], ast.Eq) and isinstance(c.left, ast.Subscript) and isinstance(c.left.slice, ast.Constant) and isinstance(c.comparators[0], ast.Constant) and isinstance(c.comparators[0].value, str):
                 wanted[c.left.slice.value] = c.comparators[0].value
-        dumps = [st for st in stmts if isinstance(st, ast.Assign) and isinstance(st.value, ast.Call) and getattr(st.value.func, "attr", None) == "dumps" and st.value.args and isinstance(st.value.args[0], ast.Name) and isinstance(st.targets[0], ast.Name)]
+        dumps = [st for st in stmts if isinstance(st, ast.Assign) and isinstance(st.value, ast.Call) and getattr(st.value.func, "attr", None) == "dumps" and st.value.args and isinstance(st.targets[0], ast.Name)]
         if not dumps:
             raise AnalysisError(f"{wname}: no `<name> = json.dumps(<record>)` statement (extractor does not recognise the code)")
         for d in dumps:
             n += 1
-            rec, out = d.value.args[0].id, d.targets[0].id
+            rec, out = (d.value.args[0].id if isinstance(d.value.args[0], ast.Name) else None), d.targets[0].id
+            shown = rec or unparse(d.value.args[0], 40)
             # (1) the string is written: every path from the dumps to the exit passes file.write(<string>)
             def writes(nd, out=out):
                 return isinstance(nd, ast.AST) and any(isinstance(c, ast.Call) and getattr(c.func, "attr", None) == "write" and c.args and isinstance(c.args[0], ast.Name) and c.args[0].id == out for c in ast.walk(nd) if not isinstance(nd, (ast.If, ast.For, ast.While, ast.Try, ast.With)) or c is nd)
             from ..cfg import EXIT
             ok = EXIT not in cfg.reachable(d, avoid=writes)
-            res.inst("F-COLL", f"{wname}:{d.lineno} the serialised `{rec}` is written to the file on every path", ok)
+            res.inst("F-COLL", f"{wname}:{d.lineno} the serialised `{shown}` is written to the file on every path", ok)
             if not ok:
-                res.add(mk_finding(PROP, "F-COLL", w, d, f"{wname}: `{unparse(d, 50)}` is computed but a path reaches the end of the function without writing it to the file; nothing (or an empty file) is left to read back", role=f"write:{rec}"))
+                res.add(mk_finding(PROP, "F-COLL", w, d, f"{wname}: `{unparse(d, 50)}` is computed but a path reaches the end of the function without writing it to the file; nothing (or an empty file) is left to read back", role=f"write:{shown}"))
             # (2) collection records: reader-dispatched literals stored before the dump; members written in the loop
-            is_collection = any(isinstance(x, ast.Subscript) and isinstance(x.value, ast.Subscript) and isinstance(x.value.value, ast.Name) and x.value.value.id == rec and isinstance(x.value.slice, ast.Constant) and x.value.slice.value == "datasets" for st in stmts for x in ast.walk(st))
-            if not is_collection:
+            is_collection = rec is not None and any(isinstance(x, ast.Subscript) and isinstance(x.value, ast.Subscript) and isinstance(x.value.value, ast.Name) and x.value.value.id == rec and isinstance(x.value.slice, ast.Constant) and x.value.slice.value == "datasets" for st in stmts for x in ast.walk(st))
+            if not is_collection or rec is None:
                 continue
             for key, lit in wanted.items():
                 def stores(nd, key=key, lit=lit, rec=rec):
